@@ -49,4 +49,26 @@ mod verif_c20_wit {
             assert!(f.generate_route_output(&bad, &geoms).is_err(), "{:?}: a missing geometry is an error", f);
         }
     }
+
+    /// C20 "tree outputs contain exactly one entry per tree branch" and "a missing geometry yields an error": the tree geometry has one member per branch, and a branch whose
+    /// edge has no stored geometry is an error in every geometry format -- never a collection with fewer members
+    #[test]
+    fn c20_wit_tree_outputs_have_one_entry_per_branch() {
+        use routee_compass_core::algorithm::search::search_tree_branch::SearchTreeBranch;
+        use routee_compass_core::model::network::vertex_id::VertexId;
+        use std::collections::HashMap;
+        let geoms: Vec<LineString<f32>> = (0..3).map(|i| LineString::from(vec![coord! {x: i as f32, y: 0.0f32}, coord! {x: i as f32 + 1.0, y: 1.0}])).collect();
+        let tree_of = |ids: &[usize]| -> HashMap<VertexId, SearchTreeBranch> {
+            ids.iter().enumerate().map(|(v, id)| (VertexId(v + 1), SearchTreeBranch { terminal_vertex: VertexId(0), edge_traversal: et(*id) })).collect()
+        };
+        let full = tree_of(&[0, 1, 2]);
+        let ml = ops::create_tree_multilinestring(&full, &geoms).unwrap();
+        assert_eq!(ml.0.len(), 3, "one member per branch");
+        let ids = TraversalOutputFormat::EdgeId.generate_tree_output(&full, &geoms).unwrap();
+        assert_eq!(ids.as_array().unwrap().len(), 3, "one edge id per branch");
+        // edge 7 has no row in the geometry table
+        let broken = tree_of(&[0, 7, 2]);
+        assert!(ops::create_tree_multilinestring(&broken, &geoms).is_err(), "a branch without a stored geometry is an error, not a shorter collection");
+        assert!(TraversalOutputFormat::Wkt.generate_tree_output(&broken, &geoms).is_err(), "wkt tree output: missing geometry is an error");
+    }
 }
